@@ -442,6 +442,7 @@ def main(tier):
             if k % 997 == 5:
                 p["_sample"] = True
             items.append((g, p))
+    print("TLC done after %.0f s; replaying %d items" % (timer.s(), len(items)))
     _ROOT = common.scratch("c15_")
     replayed = 0
     nchecks = 0
